@@ -193,6 +193,99 @@ def rand_metadata(rng):
     return dict(md=1, title=title, ctime=ctime, lang=lang)
 
 
+
+# ----------------------------------------------------------------------------------------------
+# builder call sequences (`bops=`): calls separated by ',', fields by ':' ; '~' = absent
+#   v / sv : video / set_video_track <codec>:<w>:<h>      a / sa : audio / set_audio_track <codec>:<rate>:<ch>
+#   md:<title hex|~>:<ctime|~>:<lang hex|~> with_metadata  fs:<0|1> with_fast_start   ct:<u64> set_create_time
+#   lg:<hex> set_language   sps/pps/vps/av1:<hex>   vp9:<9 ints joined by '.'>
+# ----------------------------------------------------------------------------------------------
+def cfg_tokens(cfg):
+    return dict(t.split("=", 1) for t in cfg.split() if "=" in t)
+
+
+def junk_bops(rng, allow_md=True):
+    """calls that a later call of the same kind overrides"""
+    out = []
+    for _ in range(rng.randrange(0, 4)):
+        k = rng.randrange(5 if allow_md else 3)
+        if k == 0:
+            out.append("%s:%s:%d:%d" % (rng.choice(["v", "sv"]), rng.choice(VCODECS), rng.choice([16, 320, 70000]), rng.choice([16, 240])))
+        elif k == 1:
+            out.append("%s:%s:%d:%d" % (rng.choice(["a", "sa"]), rng.choice(AUDIOS[1:] + ["cnone"]), rng.choice([8000, 48000]), rng.choice([1, 2, 300])))
+        elif k == 2:
+            out.append("fs:%d" % rng.randrange(2))
+        elif k == 3:
+            out.append("md:%s:%s:%s" % (rng.choice(["~", hx(b"old")]), rng.choice(["~", "5"]), rng.choice(["~", hx(b"fra")])))
+        else:
+            out.append(rng.choice(["ct:7", "lg:" + hx(b"deu")]))
+    return out
+
+
+def bops_from_cfg(rng, cfg):
+    """a builder call sequence that DENOTES exactly the configuration of a cfg string (last call of each
+    kind decides): overridden earlier calls, aliases, metadata through a value or through the setters"""
+    t = cfg_tokens(cfg)
+    md = t.get("md", "0") == "1"
+    ops = junk_bops(rng, allow_md=md)
+    tail = ["%s:%s:%s:%s" % (rng.choice(["v", "sv"]), t["codec"], t["w"], t["h"])]
+    if t["audio"] == "none":
+        # no audio: either no audio call at all, or an `audio(None, ..)` after whatever came before
+        if any(o.startswith(("a:", "sa:")) for o in ops) or rng.random() < 0.3:
+            tail.append("%s:cnone:%d:%d" % (rng.choice(["a", "sa"]), rng.choice([0, 48000]), rng.choice([0, 2])))
+    else:
+        tail.append("%s:%s" % (rng.choice(["a", "sa"]), t["audio"]))
+    if t.get("fast", "1") == "0" or any(o.startswith("fs:") for o in ops) or rng.random() < 0.3:
+        tail.append("fs:%s" % t.get("fast", "1"))
+    rng.shuffle(tail)
+    if md:
+        title, ctime, lang = t.get("title", "~"), t.get("ctime", "~"), t.get("lang", "~")
+        style = rng.randrange(3)
+        if style == 0:
+            m = ["md:%s:%s:%s" % (title, ctime, lang)]
+        elif style == 1:
+            m = ["md:%s:%s:%s" % (title, rng.choice(["~", "99"]) if ctime != "~" else "~", rng.choice(["~", hx(b"xxx")]) if lang != "~" else "~")]
+            st = ([("ct:%s" % ctime)] if ctime != "~" else []) + ([("lg:%s" % lang)] if lang != "~" else [])
+            rng.shuffle(st)
+            m += st
+        else:
+            m = ["md:%s:~:~" % title] + ([("lg:%s" % lang)] if lang != "~" else []) + ([("ct:%s" % ctime)] if ctime != "~" else [])
+        pos = rng.randrange(len(tail) + 1)
+        tail = tail[:pos] + m + tail[pos:]
+    return ",".join(ops + tail)
+
+
+def random_bops(rng, dist):
+    """an arbitrary builder call sequence; returns (bops string, effective codec or None, effective audio token)"""
+    n = rng.randrange(0, 7)
+    ops = []
+    for _ in range(n):
+        k = rng.random()
+        if k < 0.3:
+            ops.append("%s:%s:%d:%d" % (rng.choice(["v", "sv"]), rng.choice(VCODECS), rng.choice([640, 16, 65535, 65536]), rng.choice([480, 16])))
+        elif k < 0.6:
+            ops.append("%s:%s:%d:%d" % (rng.choice(["a", "sa"]), rng.choice(AUDIOS[1:] + ["cnone", "opus"]), rng.choice([48000, 44100, 0]), rng.choice([1, 2, 255, 256, 65535])))
+        elif k < 0.7:
+            ops.append("fs:%d" % rng.randrange(2))
+        elif k < 0.8:
+            ops.append("md:%s:%s:%s" % (rng.choice(["~", hx(b"T"), hx("é".encode())]), rng.choice(["~", "0", "1700000000"]), rng.choice(["~", hx(b"eng")])))
+        elif k < 0.9:
+            ops.append(rng.choice(["ct:86400", "lg:" + hx(b"spa"), "lg:" + hx(b"zz")]))
+        else:
+            ops.append(rng.choice(["sps:6742001e", "pps:68ce3880", "vps:40010c", "av1:0a0b00000024cf7f", "vp9:64.64.0.8.2.2.2.10.0"]))
+    if rng.random() < 0.85 and not any(o.startswith(("v:", "sv:")) for o in ops):
+        ops.insert(rng.randrange(len(ops) + 1), "v:%s:640:480" % rng.choice(VCODECS))
+    codec, audio = None, "none"
+    for o in ops:
+        f = o.split(":")
+        if f[0] in ("v", "sv"):
+            codec = f[1]
+        if f[0] in ("a", "sa"):
+            audio = f[1] if f[1] != "cnone" else "none"
+    dist["bops_len=%d" % len(ops)] += 1
+    dist["bops_video=%s" % ("none" if codec is None else "set")] += 1
+    return ",".join(ops) or ",", codec, audio
+
 # ----------------------------------------------------------------------------------------------
 # history generator (progressive muxer), shared by several properties
 # ----------------------------------------------------------------------------------------------
@@ -670,8 +763,11 @@ def contract_history(rng, dist, codec, audio, maxlen=12, with_enc=True):
                 return key_frame(rng, codec), 1 if rng.random() < 0.9 else 0
             if k < 0.85:
                 return delta_frame(rng, codec), 0 if rng.random() < 0.9 else 1
-            if k < 0.93:
+            if k < 0.91:
                 return bytes(rng.randrange(256) for _ in range(rng.randrange(1, 12))), rng.randrange(2)
+            if k < 0.93:
+                # nothing but start codes / zero bytes
+                return rng.choice([SC3, SC4, SC3 + SC4, SC4 + SC3, bytes(2), bytes(3), SC3 + b"\x00"]), rng.randrange(2)
             # config without key flag / key flag without config
             return (key_frame(rng, codec), 0) if rng.random() < 0.5 else (delta_frame(rng, codec), 1)
         plausible = [True]     # whether the last aframe()/vframe() is one the muxer should take
@@ -722,6 +818,12 @@ def gen_C04(rng, tier, dist):
         dist["codec=" + codec] += 1; dist["audio=" + audio] += 1
         ops = contract_history(rng, dist, codec, audio)
         out.append(pcase(cfg_str(codec=codec, audio=audio, rate=rng.choice([48000, 44100, 0]), fast=rng.randrange(2)), ops))
+    # "any sequence of builder and muxer calls": arbitrary builder call sequences (video missing, overridden,
+    # audio configured then set to None, Opus with too many channels), then a contract history
+    for _ in range(500 if tier == "quick" else 30000):
+        bops, codec, audio = random_bops(rng, dist)
+        ops = contract_history(rng, dist, codec or "h264", audio, maxlen=8)
+        out.append(pcase(cfg_str() + " bops=" + bops, ops))
     return out + smallscope_histories(tier, dist)
 
 
@@ -802,10 +904,14 @@ def frag_ops(rng, dist, maxlen=60, steps=None, start=None, reorder=None, queries
         elif queries and r < 0.93:
             ops.append("fdur")
         elif queries:
-            ops.append("finit")
+            # `finitfresh`: the init segment of a NEW muxer with the same configuration, asked for now —
+            # "byte-identical no matter when it is requested" compares across instances and moments
+            ops.append(rng.choice(["finit", "finit", "finitfresh"]))
     ops.append("fflush")
     if queries and rng.random() < 0.5:
         ops.append("finit")
+    if queries and rng.random() < 0.5:
+        ops.append("finitfresh")
     dist["frag_len=%d" % (len(ops) // 10 * 10)] += 1
     return ops
 
@@ -846,7 +952,7 @@ def frag_smallscope(tier, dist, L=None):
                         dts = 0; first = False
                 else:
                     ops.append(a)
-            out.append(fcase(cfg, ops + ["fflush"]))
+            out.append(fcase(cfg, ops + ["fflush", "finitfresh"]))
     dist["frag_smallscope_len<=%d" % L] += len(out)
     return out
 
@@ -897,6 +1003,8 @@ def gen_C11(rng, tier, dist):
                 ops.append("fflush")
                 if rng.random() < 0.3:
                     ops.append("finit")
+            if rng.random() < 0.5:
+                ops.append("finitfresh")
             dist["c11=constant"] += 1
             out.append(fcase(frag_cfg(rng, dist), ops))
         else:
@@ -1323,6 +1431,17 @@ def gen_C12(rng, tier, dist):
         out.append(pcase(cfg_str(codec="h264", fast=fast), ["wv %s %s 1" % (f64bits(0.0), hx(SC3 + b"\x67" + SC3 + b"\x68" + SC3 + b"\x65")), "fins"]))
         out.append(pcase(cfg_str(codec="h265", fast=fast), ["wv %s %s 1" % (f64bits(0.0), hx(SC3 + b"\x40" + SC3 + b"\x42" + SC3 + b"\x44" + SC3 + b"\x26")), "fins"]))
     dist["short_parameter_sets_finished"] += 2 * (6 * 4 * 2 + 5 * 3 * 3 + 2)
+    # --- degenerate Annex B access units as LATER frames (nothing but start codes / zero bytes): whatever
+    #     the re-framing makes of them is stored as a sample, and the sample tables are built at finish
+    for codec, kf in (("h264", h264_key(r7, extra=False)), ("h265", h265_key(r7))):
+        for n in range(1, 6):
+            for tup in itertools.product([0, 1], repeat=n):
+                d = bytes(tup)
+                out.append(pcase(cfg_str(codec=codec, fast=n % 2), ["wv %s %s 1" % (f64bits(0.0), hx(kf)), "wv %s %s 0" % (f64bits(0.04), hx(d)), "fins"]))
+                dist["degenerate_annexb_later_frame"] += 1
+        for d in (SC3 + SC4, SC4 + SC3 + SC3, SC4 + SC4, bytes(7), SC3 + bytes(3)):
+            out.append(pcase(cfg_str(codec=codec), ["ev %s 33" % hx(kf), "ev %s 33" % hx(d), "ev %s 33" % hx(SC3 + bytes([0x41, 0x9A])), "fins"]))
+            dist["degenerate_annexb_later_frame"] += 1
     # --- structured stream: valid inputs truncated at every length / bit-flipped / extreme literals
     seeds = []
     for codec in VCODECS:
@@ -1463,9 +1582,13 @@ def gen_C17(rng, tier, dist):
         # short writes and Interrupted (never an error, never Ok(0)) must not change a byte or a reply
         short = ["sink=cap:%d" % rng.choice([1, 2, 7, 64]),
                  "sink=cap:%d+intr:%s" % (rng.choice([1, 5, 4096]), ",".join(str(rng.randrange(0, 1500)) for _ in range(4)))]
-        for variant in ["", "sinkty=vec", "sinkty=cursor", "sinkty=file", "path=set", "path=setonly", "path=setrev"] + short:
+        # two builder call sequences denoting the same configuration (overridden earlier calls, aliases,
+        # metadata through a value or through the setters, audio(None) after an audio call)
+        bseq = ["bops=" + bops_from_cfg(rng, cfg), "bops=" + bops_from_cfg(rng, cfg)]
+        for variant in ["", "sinkty=vec", "sinkty=cursor", "sinkty=file", "path=set", "path=setonly", "path=setrev"] + short + bseq:
             out.append(pcase(cfg + " grp=%d" % g + (" " + variant if variant else ""), ops))
-        dist["variants"] += 9
+        dist["variants"] += 11
+        dist["builder_call_sequences"] += 2
         dist["short_write_sinks"] += 2
     # convenience vs explicit: encode_video/encode_audio with accumulated f64 time == write at that time
     for _ in range(80 if tier == "quick" else 5000):
